@@ -206,7 +206,13 @@ func nilCompare(aVal, bVal reflect.Value) (int, bool) {
 func floatCompare(a, b float64) int {
 	switch {
 	case isNaN(a):
-		return -1 // No good answer if b is a NaN so don't bother checking.
+		if isNaN(b) {
+			// Two NaNs compare equal (like cmp.Compare, which fmt uses
+			// since Go 1.21), so that composite keys that start with a
+			// NaN are ordered by their remaining components.
+			return 0
+		}
+		return -1
 	case isNaN(b):
 		return 1
 	case a < b:
